@@ -23,7 +23,7 @@ SUITE_MODULES = {
     "sheader": "FrameC",
     "typestate": "StreamTSC", "request": "SessionC",
     "session": "E2C", "control": "E2C", "control_cut": "E2C", "streams": "E2C", "foreign": "E2C",
-    "unknown_uni": "E2C", "stall": "E2C", "pace": "E2C", "emit": "E2C", "signals": "E2C", "wdgram": "E2C", "client": "E2C",
+    "unknown_uni": "E2C", "stall": "E2C", "pace": "E2C", "emit": "E2C", "signals": "E2C", "wdgram": "E2C", "client": "E2C", "pair": "E2C",
     "pin": "E4C", "digest": "E4C", "pem": "E4C", "identity": "E4C", "bind": "E4C", "idle": "E4C", "alpn": "E4C", "reload": "E4C",
     "wire": "WireC", "settings": "WireC", "dgram": "WireC", "capsule": "WireC", "ids": "WireC", "status": "WireC",
 }
@@ -129,7 +129,7 @@ PROPS["C17"] = {
 PROPS["C03"] = {
     "title": "Datagram payloads are never altered and the size contract is exact",
     "corr_modules": ["WireC", "E2C"],
-    "suites": [("e1", "dgram", ["debug"]), ("e2", "wdgram", ["debug"])],
+    "suites": [("e1", "dgram", ["debug"]), ("e2", "wdgram", ["debug"]), ("e2", "pair", ["debug"])],
     "technique": PROOF_TECH,
     "level_text": "theorems: datagram framing round-trips for every session id and payload, a delivered payload is exactly the suffix after the quarter-stream-id, L <= max <=> not refused as too large, the maximum is total and never exceeds the transport's (pre-repair code refuted by a computed witness); tie: differential runs of the proto codec",
     "level_note": CODEC_NOTE + "; loss/reordering are allowed by the property and not modelled; quinn's datagram transport is an oracle",
@@ -141,7 +141,7 @@ PROPS["C03"] = {
 PROPS["C04"] = {
     "title": "Session termination is reported with the peer's exact code and reason",
     "corr_modules": ["WireC", "StreamTSC", "E2C"],
-    "suites": [("e1", "capsule", ["debug"]), ("e1", "typestate", ["debug"]), ("e2", "session", ["debug"]), ("e2", "client", ["debug"])],
+    "suites": [("e1", "capsule", ["debug"]), ("e1", "typestate", ["debug"]), ("e2", "session", ["debug"]), ("e2", "client", ["debug"]), ("e2", "pair", ["debug"])],
     "technique": PROOF_TECH,
     "level_text": "theorems about the session-stream runner for every history of skippable elements followed by a close capsule / clean FIN / reset / FIN inside a frame / malformed capsule: exact code and reason, (0,\"\") for a clean finish, protocol failure otherwise; the wire code answered; tie: differential runs of the capsule decoders and the session typestate",
     "level_note": CODEC_NOTE + "; quinn's transport of CONNECTION_CLOSE is an oracle",
@@ -194,7 +194,7 @@ WIRE_NOTE = "; the wire suites run the real driver on loopback against a raw qui
 PROPS["C01"] = {
     "title": "Stream bytes arrive exactly, in order, with framing invisible",
     "corr_modules": ["E2C", "FrameC"],
-    "suites": [("e2", "streams", ["debug"]), ("e2", "emit", ["debug"]), ("e1", "sheader", ["debug"])],
+    "suites": [("e2", "streams", ["debug"]), ("e2", "emit", ["debug"]), ("e1", "sheader", ["debug"]), ("e2", "pair", ["debug"])],
     "technique": PROOF_TECH,
     "level_text": "theorems: for every valid session id, payload and stream ending the accept path strips exactly the preamble the opening path emits (uni and bidi) and hands over exactly the payload; the preamble readers are invariant under every segmentation/Pending schedule (poll machines proved); tie: the real driver reads streams written by a raw quinn peer with the preamble cut at every offset, payloads up to several KB, concurrent streams",
     "level_note": CODEC_NOTE + WIRE_NOTE + "; QUIC is assumed to be a reliable ordered byte pipe per stream",
@@ -242,7 +242,7 @@ PROPS["C08"] = {
 PROPS["C09"] = {
     "title": "Termination is prompt, total and never misattributed",
     "corr_modules": ["E2C"],
-    "suites": [("e2", "session", ["debug"])],
+    "suites": [("e2", "session", ["debug"]), ("e2", "pair", ["debug"])],
     "technique": PROOF_TECH,
     "level_text": "theorems: the result cell is set at most once and every later get returns that value; each reported error names the actual cause (peer code+reason, local H3 error, transport cause, or local close); the worker closes with the code of the cause; tie: every way the session stream / connection ends x pending and subsequent calls against the running driver (none hangs, none succeeds, none panics)",
     "level_note": CODEC_NOTE + WIRE_NOTE + "; 'bounded time' is bounded model steps; a runtime shut down under the worker is outside the model",
@@ -279,7 +279,7 @@ PROPS["C02"] = {
 PROPS["C06"] = {
     "title": "Stream termination signals carry their codes end to end",
     "corr_modules": ["E2C"],
-    "suites": [("e2", "signals", ["debug"]), ("e2", "streams", ["debug"])],
+    "suites": [("e2", "signals", ["debug"]), ("e2", "streams", ["debug"]), ("e2", "pair", ["debug"])],
     "technique": PROOF_TECH,
     "level_text": "theorems: the varint conversions are the identity below 2^62 (no assertion can fire), every reset/stop code is reported unchanged, no two signals are conflated, finish succeeds iff the peer acknowledged everything; tie: reset/stop/finish with codes at every varint boundary in both directions between the real driver and a raw quinn peer (the code on the wire is observed too)",
     "level_note": "partial: " + CODEC_NOTE + WIRE_NOTE + "; quinn's stream life-cycle (when stopped() resolves, acknowledgement tracking) is an oracle",
